@@ -1685,6 +1685,9 @@ func c18GenDot(tier string, rng *rand.Rand, emit func(interface{})) {
 			if wide && sz > 101 { // the model's printer is quadratic in the output: no further 1001-node graphs
 				sz = 101
 			}
+			if !thorough && sz > 301 { // quick: 301 nodes (a tenth of the comparator time of 1001)
+				sz = 301
+			}
 			g = c18Structured(rng, kind, sz, rng.Intn(3))
 		default:
 			g = c18RandGraph(rng, 1+rng.Intn(12))
@@ -2025,8 +2028,8 @@ func c18HistCase(rng *rand.Rand, g [][]int, bi bool, small bool) c18Case {
 	}
 	steps := []c18Case{trav(), {Op: 3, Flags: 3}, trav()}
 	mid := []c18Case{keep(), remove(), {Op: 3, Flags: rng.Intn(3)}, {Op: 4}, equal(), {Op: 6}}
-	if n > 3000 { // keep the line of a large graph within a few 10^5 integers
-		mid = []c18Case{keep(), remove(), equal()}
+	if n > 1000 { // large graph: few steps (every step prints the graph before and after the call)
+		mid = []c18Case{[]c18Case{keep(), remove(), equal(), {Op: 6}}[rng.Intn(4)]}
 	}
 	if small {
 		d := c18Case{Op: 10}
@@ -2045,9 +2048,12 @@ func c18HistCase(rng *rand.Rand, g [][]int, bi bool, small bool) c18Case {
 		if bi && m.Op != 4 {
 			steps = append(steps, c18Case{Op: 4}) // In of the BiGraph object after the call
 		}
-		if k%2 == 1 || (!small && n <= 3000) {
+		if k%2 == 1 || (!small && n <= 1000) {
 			steps = append(steps, trav())
 		}
+	}
+	if n > 1000 {
+		steps = steps[2:] // trav, one of Keep/Remove/Equal/SimplifyMulti (+ In), then SCC and trav again
 	}
 	steps = append(steps, c18Case{Op: 3, Flags: 3}, trav())
 	return c18Case{Op: 11, G: g, Bi: bi, Steps: steps}
@@ -2083,8 +2089,11 @@ func c18GenHist(tier string, rng *rand.Rand, emit func(interface{})) {
 		}
 		emit(c18HistCase(rng, c18RandGraph(rng, n), bi(), n <= 12))
 	}
-	for _, n := range []int{1100, 2049, 4200} {
+	for i, n := range []int{1100, 2049, 4200} {
 		for kind := 0; kind < 7; kind++ {
+			if scale == 1 && kind != []int{3, 5, 6}[i] { // quick: one large history per growth boundary (DAG layers, tree with back edges, fan)
+				continue
+			}
 			var g [][]int
 			if kind < 6 {
 				g = c18Structured(rng, kind, n, rng.Intn(3))
